@@ -209,7 +209,7 @@ pub fn load_big_replay(p: &std::path::Path) -> Result<BigReplay, String> {
 }
 
 pub fn write_big_replay(rp: &BigReplay) -> String {
-    let dir = format!("{}/replays/found", VERIF_DIR);
+    let dir = format!("{}/replays/found", verif_dir());
     let _ = std::fs::create_dir_all(&dir);
     let h = crate::world::hstr(&serde_json::to_string(&rp.big_case).unwrap());
     let path = format!("{}/C19-{:012x}.json", dir, h & 0xffff_ffff_ffff);
